@@ -204,6 +204,87 @@ static void invalid_params(void)
 			}
 }
 
+/* (ii-c) multi-block streams with block-type transitions (dynamic -> stored with pending bits, stored -> dynamic) and EVERY size of
+ * the first output buffer (then 4 KiB buffers), plus uniform buffer sizes: several KiB of compressible data followed by
+ * incompressible data, minimum level buffer (a block is closed every 1024 tokens). Each output buffer ends at an inaccessible
+ * page, counters are checked after every call and the assembled stream must decode to the input. */
+static void mixed_streams(void)
+{
+	static uint8_t *MIN, *MOUT;
+	if (!MIN) { MIN = malloc(20000); MOUT = malloc(60000); }
+	static const int tlens[] = { 6000, 6100, 6250, 2500 };
+	static const int cpus[] = { CPU_BASE, CPU_AVX2, CPU_AVX512G2 };
+	char key[300], why[256];
+	uint64_t unit = 777000;
+	for (int level = 0; level <= 3; level++)
+		for (int ti = 0; ti < 4; ti++)
+			for (int gz = 0; gz < 2; gz++)
+				for (int uniform = 0; uniform < 2; uniform++) {
+					int tl = tlens[ti], len = tl + 3000 + 500;
+					fill_pattern(MIN, tl, PAT_TEXT, 3);
+					fill_xorshift(MIN + tl, 3000, 17 + ti);
+					fill_pattern(MIN + tl + 3000, 500, PAT_TEXT, 4);
+					int fmax = uniform ? 700 : len + 400;
+					for (int f = 1; f <= fmax; f++) {
+						if (!v_mine(unit++))
+							continue;
+						if (nfail > 30 || v_deadline_hit())
+							return;
+						cpu_set_level(cpus[(level + ti + f) % 3]);
+						struct isal_zstream *s = g_alloc(sizeof *s, G_END);
+						uint8_t *lb = level ? g_alloc(lvl_min[level], G_END) : NULL;
+						uint8_t *in = g_alloc(len, G_END);
+						memcpy(in, MIN, len);
+						g_readonly(in, 1);
+						size_t ol = 0;
+						int r = 0, calls = 0, bad = 0;
+						snprintf(key, sizeof key, "mixed-stream level=%d wrapper=%s text=%d+incompressible 3000+text 500 %s=%d", level, gz ? "gzip" : "raw", tl, uniform ? "every-output-buffer" : "first-output-buffer", f);
+						if (V_TRY()) {
+							isal_deflate_init(s);
+							s->level = level; s->level_buf = lb; s->level_buf_size = level ? lvl_min[level] : 0;
+							s->gzip_flag = gz ? IGZIP_GZIP : IGZIP_DEFLATE;
+							s->next_in = in; s->avail_in = len; s->end_of_stream = 1;
+							while (s->internal_state.state != ZSTATE_END && calls < 60000) {
+								size_t cap = calls == 0 || uniform ? (size_t)f : 4096;
+								uint8_t *out = g_alloc(cap, G_END);
+								uint32_t ti0 = s->total_in, to0 = s->total_out;
+								uint8_t *ni0 = s->next_in;
+								s->next_out = out; s->avail_out = cap;
+								r = isal_deflate(s);
+								calls++;
+								size_t p = cap - s->avail_out;
+								if (r != COMP_OK || s->avail_out > cap || s->next_out != out + p || s->total_out - to0 != p || s->total_in - ti0 != (uint32_t)(s->next_in - ni0) || ol + p > 60000) {
+									bad = 1;
+									break;
+								}
+								memcpy(MOUT + ol, out, p);
+								ol += p;
+							}
+							V_END();
+						} else {
+							v_violation(key, "%s (call %d)", v_fault_desc(), calls + 1);
+							nfail++;
+							g_reset();
+							continue;
+						}
+						v_eval();
+						if (bad || s->internal_state.state != ZSTATE_END) {
+							v_violation(key, "call %d: return %d or counters inconsistent (total_out %u, avail_out %u), state %d", calls, r, s->total_out, s->avail_out, s->internal_state.state);
+							nfail++;
+						} else if (g_check()) {
+							v_violation(key, "%s", g_last_damage());
+							nfail++;
+						} else if (!verify_deflate_output(MOUT, ol, gz ? IGZIP_GZIP : IGZIP_DEFLATE, MIN, len, 0, 0, NULL, 0, why, sizeof why)) {
+							v_violation(key, "%s", why);
+							nfail++;
+						}
+						v_count("mixed_stream_schedules", 1);
+						g_reset();
+					}
+					v_nontrivial(v_mix(0x771 + level, ti * 4 + gz * 2 + uniform));
+				}
+}
+
 int main(int argc, char **argv)
 {
 	v_init(argc, argv, "C10");
@@ -320,6 +401,8 @@ int main(int argc, char **argv)
 					deflate_graph(se_din[ii].name, se_din[ii].p, se_din[ii].len, level, gzs[gz], cpus[(ii + level + gz) % 3], 1, v_thorough ? 1500000 : 150000);
 				}
 	}
+	if (!v_part || !strcmp(v_part, "mixed"))
+		mixed_streams();
 	if ((!v_part || !strcmp(v_part, "params")) && v_shard == 0)
 		invalid_params();
 	if (v_shard == 0) {
